@@ -8,9 +8,10 @@
 (* (exhaustively, or randomly with -simulate), checks the cache's own      *)
 (* invariants, and prints every history for replay into the real client.   *)
 (***************************************************************************)
-EXTENDS CacheRule, TLC, Json
+EXTENDS ClientOps, TLC, Json
 
-CONSTANTS Depth, Start
+CONSTANTS Depth, Start,
+          WireDepth     \* the wire-level refinement is evaluated in the states reached by at most this many operations
 
 Keys == {"a", "b"}
 V1 == <<49>>          \* "1"  numeric
@@ -65,6 +66,13 @@ CasTokenAccepted ==
 (* versions are unique among live items *)
 CasUnique == \A k1, k2 \in Keys : (Live(c, k1) /\ Live(c, k2) /\ k1 # k2) => c.st[k1].cas # c.st[k2].cas
 (* what get returns is what get_many returns *)
+(* client tables + faithful server = abstract cache: in every reachable state, for every operation of the   *)
+(* alphabet, sending Cmds(ev), letting the server answer and interpreting the replies gives exactly the      *)
+(* documented result and the same store (spec/ClientOps.tla)                                                *)
+WireRefinesAbstract ==
+  (Len(hist) <= WireDepth /\ ~done) =>
+  \A ev \in OpSet : ev.e = "op" =>
+     LET w == RunWire(c, ev)  a == CApply(c, ev) IN SameRes(w.res, a.res) /\ StoreEq(w.c, a.c)
 ManyAgrees == LET m == ManyRes(c, <<"a", "b">>, FALSE)
               IN \A i \in DOMAIN m : m[i][2] = GetRes(c, m[i][1])
 =============================================================================
